@@ -47,7 +47,7 @@ def step_tla(s, qnames):
         a = str(int(arg))
     elif ev in ("QueueIfReady", "CmdHold", "CmdRelease"):
         a = '<<%s, %d>>' % (tla(arg[0]), arg[1])
-    elif ev in ("EnvLaunch", "EnvJobStep", "SubmitCallback", "Deliver"):
+    elif ev in ("EnvLaunch", "EnvJobStep", "SubmitCallback", "Deliver", "Poll"):
         a = _jid(arg)
     else:
         a = "0"
